@@ -182,9 +182,9 @@ def lean_audit(ctx, pid=None):
         rc, out, err = sh(["lake", "env", "lean", path], cwd=LEAN, timeout=1800)
     got = {}
     txt = out + err
-    for m in re.finditer(r"'([^']+)' depends on axioms: \[([^\]]*)\]", txt, re.S):
+    for m in re.finditer(r"'(\S+)' depends on axioms: \[([^\]]*)\]", txt, re.S):
         got[m.group(1)] = [a.strip() for a in m.group(2).replace("\n", " ").split(",") if a.strip()]
-    for m in re.finditer(r"'([^']+)' does not depend on any axioms", txt):
+    for m in re.finditer(r"'(\S+)' does not depend on any axioms", txt):
         got[m.group(1)] = []
     problems = []
     if rc != 0:
